@@ -7,7 +7,7 @@ From Lox Require Import Rang3.RangeModel Rang3.ClassModel.
 From Lox Require Import Parse.Grammar Parse.Tables Parse.ParseRuntime Parse.Validator Parse.Actions Parse.TermCheck.
 From Lox Require Import Lex.LexRuntime Lex.LexAuto Lex.NfaRef Lex.LexEquiv Lex.RegexRef.
 From Lox Require Import Gen.TableEnc Gen.Numbering Gen.FirstModel Gen.ResolveModel Gen.LALRRef Gen.PrecClimb Gen.Binding Gen.Analyze Gen.NormalizeModel.
-From Lox Require Import Lex.Utf8Model Gen.EscapeModel.
+From Lox Require Import Lex.Utf8Model Gen.EscapeModel Gen.EscapeRune.
 
 (* stable names for functions whose short names clash between modules *)
 Definition x_range_normalize := RangeModel.normalize.
@@ -37,4 +37,4 @@ Extraction "loxmodel_ext.ml"
   analyze well_formed well_formed_weak
   term_ok term_fuel local_run
   x_sugar_normalize x_sugar_wf x_utf8_decode_all x_utf8_encode_rune
-  is_literal_body is_literal_token is_class_char unescape_bytes fix_literal.
+  is_literal_body is_literal_token is_class_char unescape_bytes fix_literal class_char_rune literal_runes.
